@@ -481,9 +481,14 @@ fn step(loud: bool) {
         GEN_QUIETS_CALLS = 0;
     }
     let r = p.next(&game, &ctx, kani::any());
-    kani::cover!(st0 == 6 && r.is_some());
-    kani::cover!(st0 == 7 && r.is_some());
-    kani::cover!(st0 == 9 && r.is_none());
+    if loud {
+        kani::cover!(st0 == 7 && r.is_some());
+        kani::cover!(st0 == 2 && r.is_none());
+    } else {
+        kani::cover!(st0 == 6 && r.is_some());
+        kani::cover!(st0 == 7 && r.is_some());
+        kani::cover!(st0 == 9 && r.is_none());
+    }
     assert!(structural(&p, nc, nq));
     match r {
         Some(m) => {
